@@ -30,3 +30,16 @@ def run(ctx: Ctx) -> None:
     with ctx.part():
         from .c08 import weights_vs_distribution
         weights_vs_distribution(ctx, 'R09.1')
+    with ctx.part():
+        # ... and that distribution is the deformed channel (shared with C08 R08.6)
+        from .c08 import _r086
+        sub = Ctx('C09', ctx.model, ctx.tier, ctx.seed)
+        sub.rule('R08.6', '', 0)
+        _r086(sub)
+        for o in sub.obs:
+            ctx.ob('R09.1', o.site, o.what, o.ok, o.detail, key=o.key.split('|', 1)[1], facts=o.facts)
+    with ctx.part():
+        # the decoders of this property answer from the syndrome alone: no state written by one decode is read by the next
+        from .c06 import decoder_state_rule
+        decoder_state_rule(ctx, 'R09.2', ('MatchingDecoder', 'UnionFindDecoder', 'SweepMatchDecoder',
+                                          'RotatedSweepMatchDecoder', 'SweepDecoder3D', 'RotatedSweepDecoder3D'))
